@@ -129,6 +129,7 @@ Qed.
 Lemma dispatch_inv cfg v r : body_inv v -> body_inv (fst (dispatch_rx cfg v r)).
 Proof.
   intros H. unfold dispatch_rx. destruct r; cbn [fst]; try exact H; try apply body_inv_clear.
+  - destruct (c_defer_continue cfg); exact H.
   - destruct (negb (rq_is_trace (rv_req v))); [|apply body_inv_clear].
     destruct (hd_is_chunked _ && negb _); [exact H|apply body_inv_clear].
   - destruct (rc_is_last (rv_chunk v)); [apply body_inv_clear|exact H].
